@@ -604,6 +604,225 @@ theorem NInv.run {n : Net} (ops : List Op) (h : NInv n) : NInv (n.run ops) := by
   | nil => exact h
   | cons op ops ih => exact ih (h.step op)
 
+/-! ### end to end: every caller gets at most one reply -/
+
+def callPorts (l : List (SerMsg × Nat)) : List Nat :=
+  l.filterMap fun | (.call q _, _) => some q | _ => none
+
+def delivs (outs : List Out) : List (Nat × Nat) := outs.filterMap fun | .deliver q d => some (q, d) | _ => none
+
+/-- how many times reply port `q` exists: stored in the proxy, already served, or still in
+the mailbox -/
+def Net.portCount (n : Net) (q : Nat) : Nat :=
+  (n.px.pending.map (·.2)).count q + (n.delivered.map (·.1)).count q + (callPorts n.mbox).count q
+
+theorem count_filter_remove (l : List (Nat × Nat)) (t q0 q : Nat) (h : (t, q0) ∈ l) :
+    ((l.filter (·.1 != t)).map (·.2)).count q + (if q = q0 then 1 else 0) ≤ (l.map (·.2)).count q := by
+  induction l with
+  | nil => simp at h
+  | cons e l ih =>
+    simp only [List.mem_cons] at h
+    by_cases he : e.1 = t
+    · -- this entry is removed
+      have hf : (e :: l).filter (·.1 != t) = l.filter (·.1 != t) := by simp [List.filter_cons, he]
+      rw [hf]
+      simp only [List.map_cons, List.count_cons]
+      rcases h with h | h
+      · have : e.2 = q0 := by rw [← h]
+        have hle := (List.filter_sublist (l := l) (p := (·.1 != t))).map (·.2) |>.count_le q
+        subst this
+        by_cases hq : q = e.2
+        · subst hq; simp; omega
+        · have : ¬ e.2 = q := fun x => hq x.symm
+          simp [hq, this]; omega
+      · have := ih h
+        omega
+    · have hf : (e :: l).filter (·.1 != t) = e :: l.filter (·.1 != t) := by simp [List.filter_cons, he]
+      rw [hf]
+      rcases h with h | h
+      · exact absurd (by rw [← h]) he
+      · have := ih h
+        simp only [List.map_cons, List.count_cons]
+        omega
+
+/-- one `handle_serialized`: ports only move from "stored" to "served", a call adds its own port -/
+theorem handle_count {p : Proxy} (hp : PInv p) (closed : Nat → Bool) (up : Bool) (m : SerMsg) (q : Nat) :
+    ((p.handle closed up m).1.pending.map (·.2)).count q + ((delivs (p.handle closed up m).2).map (·.1)).count q ≤
+      (p.pending.map (·.2)).count q + (callPorts [(m, 0)]).count q := by
+  have hcl := ((cleanup_sublist closed p).map (·.2)).count_le q
+  cases m with
+  | cast payload =>
+    simp only [Proxy.handle, callPorts, delivs]
+    split <;> simpa using hcl
+  | call port payload =>
+    simp only [Proxy.handle, callPorts, delivs, List.filterMap_cons, List.filterMap_nil]
+    split
+    · simp only [List.map_append, List.map_cons, List.map_nil, List.count_append, List.filterMap_cons,
+        List.filterMap_nil, List.count_nil]
+      omega
+    · have := ((removePending_sublist
+        ({ p.cleanup closed with tag := (p.cleanup closed).tag + 1,
+                                 pending := (p.cleanup closed).pending ++ [((p.cleanup closed).tag + 1, port)] })
+        ((p.cleanup closed).tag + 1)).map (·.2)).count_le q
+      simp only [List.map_append, List.map_cons, List.map_nil, List.count_append, List.filterMap_nil,
+        List.count_nil] at this ⊢
+      omega
+  | reply tag data g =>
+    simp only [Proxy.handle, callPorts, delivs, List.filterMap_cons, List.filterMap_nil, List.count_nil]
+    cases hq : ((p.cleanup closed).removePending tag).2 with
+    | none =>
+      have := ((removePending_sublist (p.cleanup closed) tag).map (·.2)).count_le q
+      simp only [List.filterMap_nil, List.map_nil, List.count_nil]
+      omega
+    | some q0 =>
+      have hm := (removePending_port (hp.cleanup closed) tag q0).mp hq
+      have := count_filter_remove (p.cleanup closed).pending tag q0 q hm
+      have hpend : ((p.cleanup closed).removePending tag).1.pending = (p.cleanup closed).pending.filter (·.1 != tag) := rfl
+      rw [hpend]
+      cases hcq : closed q0 with
+      | true => simp only [hcq, ↓reduceIte, List.filterMap_nil, List.map_nil, List.count_nil]; omega
+      | false =>
+        simp only [hcq, Bool.false_eq_true, ↓reduceIte, List.filterMap_cons, List.filterMap_nil, List.map_cons,
+          List.map_nil, List.count_cons, List.count_nil]
+        have hb : (if q0 == q then 1 else 0) = (if q = q0 then 1 else 0) := by
+          by_cases hqq : q = q0
+          · subst hqq; simp
+          · have : ¬ q0 = q := fun x => hqq x.symm
+            simp [hqq, this]
+        omega
+
+structure UInv (n : Net) : Prop where
+  px : PInv n.px
+  once : ∀ q, n.portCount q ≤ 1
+  fresh : ∀ q, n.nport ≤ q → n.portCount q = 0
+
+theorem uinv_init (k k' : Nat) : UInv (Net.init k k') := by
+  refine ⟨pinv_init, ?_, ?_⟩ <;> intro q <;> simp [Net.init, Net.portCount, callPorts]
+
+theorem callPorts_cons (x : SerMsg × Nat) (l : List (SerMsg × Nat)) (q : Nat) :
+    (callPorts (x :: l)).count q = (callPorts [(x.1, 0)]).count q + (callPorts l).count q := by
+  rcases x with ⟨m, s⟩
+  cases m <;> simp [callPorts, List.count_cons]
+  omega
+
+theorem UInv.step {n : Net} (op : Op) (h : UInv n) : UInv (n.step op) := by
+  have same : ∀ n' : Net, n'.px = n.px → n'.delivered = n.delivered → n'.mbox = n.mbox → n'.nport = n.nport → UInv n' := by
+    intro n' h1 h2 h3 h4
+    refine ⟨by rw [h1]; exact h.px, ?_, ?_⟩
+    · intro q; simp only [Net.portCount, h1, h2, h3]; exact h.once q
+    · intro q hq; simp only [Net.portCount, h1, h2, h3]; rw [h4] at hq; exact h.fresh q hq
+  cases op with
+  | cast sender payload =>
+    simp only [Net.step]
+    split
+    · refine ⟨h.px, ?_, ?_⟩
+      · intro q
+        have := h.once q
+        simpa [Net.portCount, callPorts, List.filterMap_append] using this
+      · intro q hq
+        have := h.fresh q hq
+        simpa [Net.portCount, callPorts, List.filterMap_append] using this
+    · exact h
+  | call sender payload =>
+    simp only [Net.step]
+    split
+    · refine ⟨h.px, ?_, ?_⟩
+      · intro q
+        have h1 := h.once q
+        have h2 := h.fresh q
+        simp only [Net.portCount, callPorts, List.filterMap_append, List.filterMap_cons, List.filterMap_nil,
+          List.count_append, List.count_cons, List.count_nil] at h1 h2 ⊢
+        by_cases hq : n.nport = q
+        · have := h2 (by omega)
+          simp [hq] at this ⊢
+          omega
+        · simp [hq]; omega
+      · intro q hq
+        have := h.fresh q (by simp only at hq; omega)
+        simp only [Net.portCount, callPorts, List.filterMap_append, List.filterMap_cons, List.filterMap_nil,
+          List.count_append, List.count_cons, List.count_nil] at this ⊢
+        have hne : ¬ n.nport = q := by simp only at hq; omega
+        simp [hne]; omega
+    · refine ⟨h.px, h.once, ?_⟩
+      intro q hq
+      exact h.fresh q (by simp only at hq; omega)
+  | abandon port => exact same _ rfl rfl rfl rfl
+  | proxy =>
+    simp only [Net.step]
+    split
+    · exact h
+    · rename_i m sender rest hm
+      have hc := fun q => handle_count h.px (n.closed.contains ·) n.linkUp m q
+      have hmb := fun q => callPorts_cons (m, sender) rest q
+      have key : ∀ q, ((n.px.handle (n.closed.contains ·) n.linkUp m).1.pending.map (·.2)).count q +
+          ((n.delivered ++ delivs (n.px.handle (n.closed.contains ·) n.linkUp m).2).map (·.1)).count q +
+          (callPorts rest).count q ≤ n.portCount q := by
+        intro q
+        have h1 := hc q; have h2 := hmb q
+        simp only [Net.portCount, hm, List.map_append, List.count_append] at *
+        omega
+      refine ⟨h.px.handle _ _ _, ?_, ?_⟩
+      · intro q
+        have h1 := key q; have h2 := h.once q
+        show ((n.px.handle (n.closed.contains ·) n.linkUp m).1.pending.map (·.2)).count q +
+          ((n.delivered ++ delivs (n.px.handle (n.closed.contains ·) n.linkUp m).2).map (·.1)).count q +
+          (callPorts rest).count q ≤ 1
+        omega
+      · intro q hq
+        have h1 := key q; have h2 := h.fresh q hq
+        show ((n.px.handle (n.closed.contains ·) n.linkUp m).1.pending.map (·.2)).count q +
+          ((n.delivered ++ delivs (n.px.handle (n.closed.contains ·) n.linkUp m).2).map (·.1)).count q +
+          (callPorts rest).count q = 0
+        omega
+  | moveF i =>
+    simp only [Net.step]
+    split
+    · exact same _ rfl rfl rfl rfl
+    · split
+      · split <;> exact same _ rfl rfl rfl rfl
+      · exact same _ rfl rfl rfl rfl
+  | answer hid data =>
+    simp only [Net.step]
+    split
+    · exact h
+    · exact same _ rfl rfl rfl rfl
+  | drop hid => exact same _ rfl rfl rfl rfl
+  | moveB i =>
+    simp only [Net.step]
+    split
+    · exact same _ rfl rfl rfl rfl
+    · refine ⟨h.px, ?_, ?_⟩
+      · intro q
+        have := h.once q
+        simpa [Net.portCount, callPorts, List.filterMap_append] using this
+      · intro q hq
+        have := h.fresh q hq
+        simpa [Net.portCount, callPorts, List.filterMap_append] using this
+  | targetExit => exact same _ rfl rfl rfl rfl
+  | cut =>
+    refine ⟨⟨by simp [Net.step], by simp [Net.step]⟩, ?_, ?_⟩
+    · intro q
+      have := h.once q
+      simp only [Net.step, Net.portCount, callPorts, List.map_nil, List.count_nil, List.filterMap_nil] at this ⊢
+      omega
+    · intro q hq
+      have := h.fresh q hq
+      simp only [Net.step, Net.portCount, callPorts, List.map_nil, List.count_nil, List.filterMap_nil] at this ⊢
+      omega
+
+theorem UInv.run {n : Net} (ops : List Op) (h : UInv n) : UInv (n.run ops) := by
+  induction ops generalizing n with
+  | nil => exact h
+  | cons op ops ih => exact ih (h.step op)
+
+/-- no port is served twice -/
+theorem UInv.delivered_nodup {n : Net} (h : UInv n) : (n.delivered.map (·.1)).Nodup := by
+  rw [List.nodup_iff_count]
+  intro q
+  have := h.once q
+  simp only [Net.portCount] at this
+  omega
+
 /-! ### tags over a whole history of the proxy -/
 
 /-- one `handle_serialized` call with the environment it sees: the ports closed so far,
